@@ -305,13 +305,17 @@ func RunProperty(p *Property, tier string, self string) int {
 	if p.Post != nil {
 		p.Post(cov)
 	}
+	assumptions := p.Assumptions
+	if assumptions == nil {
+		assumptions = []string{}
+	}
 	ev := map[string]any{
 		"property_id": p.ID,
 		"tier":        tier,
 		"seed":        seed,
 		"level":       p.Level,
 		"coverage":    cov,
-		"assumptions": p.Assumptions,
+		"assumptions": assumptions,
 		"wall_s":      time.Since(startWall).Seconds(),
 		"violations":  reported,
 	}
